@@ -1,6 +1,6 @@
 (* C02 — schema-to-model structure fidelity (no silently lost fields).
    Only statements, [exact], and Print Assumptions live here. *)
-From PG Require Import Lib.Strs Model.AllOf Model.Parser Proofs.AllOf Proofs.Parser Gen.T_C02.
+From PG Require Import Lib.Strs Model.AllOf Model.Parser Model.ModelKind Proofs.AllOf Proofs.Parser Proofs.ModelKind Gen.T_C02.
 From Coq Require Import Permutation.
 
 (* The allOf merge is exactly the declared semantics over flat parents, for ALL member lists and ALL property lists:
@@ -190,3 +190,16 @@ Theorem C02_order_independent : forall md S S' rk rk',
   forall n, model_fields (parse_doc md S) n = model_fields (parse_doc md S') n.
 Proof. exact order_independent. Qed.
 Print Assumptions C02_order_independent.
+
+(* The visitor's kind decision (Model/ModelKind.v transcribes visit_IRSchema): on the fragment of C02_partial every
+   declared object / allOf schema is rendered as a DATACLASS (it is object-typed, carries no oneOf/anyOf of its own, is
+   not an enum) whose IR fields are exactly the declared ones.  The rendering of the fields themselves (wire key,
+   required, annotation) is NOT modelled: it is checked by the oracle on the emitted modules only. *)
+Theorem C02_objects_are_dataclasses : forall md S rk,
+  core_spec S = true -> ranked_b rk S = true -> depth_ok rk S md = true ->
+  forall n nd, alookup n S = Some nd ->
+  (exists ps rq, nd = Obj ps rq) \/ (exists l, nd = AllOf l) ->
+  exists e, alookup n (parsed (parse_doc md S)) = Some e /\ model_kind e = KDataclass
+            /\ faithful S (parse_doc md S) n.
+Proof. exact acyclic_objects_are_dataclasses. Qed.
+Print Assumptions C02_objects_are_dataclasses.
